@@ -16,7 +16,7 @@ class IterBoom(Exception):
     pass
 
 
-def h_fail(l1: int, l2: int, l3: int, k1: int, k2: int, limit: int, q: int, probe: int,
+def h_fail(l1: int, l2: int, l3: int, k1: int, k2: int, limit: int, q: int, probe: int, silent: bool,
            j=0, K=1, F=2, kind='iterraise', numtype='float64', bo='little', atom=(), indextype='int64',
            via='iterappend', qneg=None, _gate=None, _small=False):
     """iterappend/append of up to F items; the failure strikes at item j (0-based).
@@ -59,6 +59,7 @@ def h_fail(l1: int, l2: int, l3: int, k1: int, k2: int, limit: int, q: int, prob
         if _small:
             assume(limit <= 64 * rbv)
         vnode.limit = limit
+        w.silent_refusal = silent
         size = N * rbv
         done = 0
         failing = False
@@ -73,6 +74,7 @@ def h_fail(l1: int, l2: int, l3: int, k1: int, k2: int, limit: int, q: int, prob
     elif kind == 'ilimit':
         assume(K * rbi <= limit <= (K + F) * rbi)
         inode.limit = limit
+        w.silent_refusal = silent
         done = (limit - K * rbi) // rbi
         assume(done < F and j == done)
     elif kind == 'overflow':
@@ -90,6 +92,8 @@ def h_fail(l1: int, l2: int, l3: int, k1: int, k2: int, limit: int, q: int, prob
         assume(failing and j == done)
     else:
         assume(j < F or kind == 'iterraise')
+    if kind not in ('vlimit', 'ilimit'):
+        assume(not silent)
     if via == 'append':
         assume(j == 0)
 
@@ -208,7 +212,7 @@ def replay_fail(cex, d):
     spec = dict(lens=lens, ks=ks, atom=atom, numtype=numtype, bo=fx['bo'], kind=kind, j=int(fx['j']),
                 done=int(fx['j']), indextype=indextype, via=fx.get('via', 'iterappend'), rowscale=1)
     if kind == 'vlimit':
-        rowscale = max(1, (65536 + rbv - 1) // rbv)
+        rowscale = max(1, (65536 + rbv - 1) // rbv) if not fx.get('silent') else 1
         spec['rowscale'] = rowscale
         whole, extra = divmod(int(fx['limit']), rbv)
         spec['limit_bytes'] = whole * rbv * rowscale + extra
